@@ -11,13 +11,33 @@
    (C02_pipeline_invariant), with the event postcondition C02_events_quiet that makes core_doc
    alone sufficient; C02_full : C02_full_statement; and the enumeration of the 192 extension
    sets over the REGENERATED bit values.
-   Converse half at document level for any source: C02_alias_off_document, C02_range_off_document
-   (generic event postcondition, Proofs/C02Converse.v); the other six families have gate lemmas.
-   Not theorems: absence of errors on well-formed core recipes, the converse readings of the other
-   families at document level - monitored on the implementation under all 192 sets. *)
+   Converse half at document level, for ANY source and any extension word lacking the flag
+   (generic event postconditions, Proofs/C02Converse.v and Proofs/C02Off.v; the analysis pass on
+   ANY event stream, Proofs/C02OffAnalysis.v):
+     COMPONENT_ALIAS            C02_alias_off_document, C02_alias_diagnostics_off_document
+     RANGE_VALUES               C02_range_off_document
+     COMPONENT_MODIFIERS        C02_modifiers_off_document, C02_modifier_diagnostics_off_document,
+                                C02_no_references_analysis, C02_no_references_pipeline
+     INTERMEDIATE_PREPARATIONS  C02_intermediate_off_document, C02_intermediate_diagnostics_off_document
+     TIMER_REQUIRES_TIME        C02_timer_time_off_document
+     ADVANCED_UNITS             C02_advanced_off_document, C02_advanced_off_quantity,
+                                C02_advanced_off_no_percent, C02_advanced_off_analysis
+     MODES                      C02_modes_off_document, C02_modes_off_analysis, C02_modes_constant_analysis
+     INLINE_QUANTITIES          C02_inline_off_analysis, C02_inline_off_no_inline
+   and C02_diag_codes_document (every diagnostic of any stream has a code that is possible under
+   the extension word).
+   "With no errors": C02_core_no_errors_partial - a text that spells a document specification
+   which is well formed under each of the 192 sets parses under each of them without panic and
+   without ANY diagnostic to the denoted events (decidable class core_spelling; partial: no front
+   matter, the specification is a certificate given with the text); C02_no_errors_transport -
+   for every core_doc source, the streams of any two extension words are equal, so absence of
+   errors carries from one set to all.
+   Not theorems: absence of errors for core_doc sources without such a certificate - monitored on
+   the implementation under all 192 sets. *)
 From CL Require Import Base.StrLemmas Model.Parser Gen.CharClass Proofs.ParserGates Proofs.C02Invariance
-  Proofs.C02Wide Model.EventBridge Proofs.C02Pipeline Proofs.C02Quiet Proofs.C02Full Proofs.C02Converse.
-From CL Require Model.Analysis Proofs.C02AnalysisGates Proofs.C02AnalyseInv.
+  Proofs.C02Wide Model.EventBridge Proofs.C02Pipeline Proofs.C02Quiet Proofs.C02Full Proofs.C02Converse Proofs.C02Off Proofs.C02OffPipeline.
+From CL Require Model.Analysis Proofs.C02AnalysisGates Proofs.C02AnalyseInv Proofs.C02OffAnalysis.
+From CL Require Model.Printer Proofs.C02NoErrors.
 
 Theorem C02_range_off : forall cfg ts, has cfg X_RANGE_VALUES = false -> range_value cfg ts = None.
 Proof. exact range_off. Qed.
@@ -335,6 +355,12 @@ Example C02_core_doc_rejects :
   = [false; false; false; false; false].
 Proof. vm_compute. reflexivity. Qed.
 
+(* a `|` after a single-word component is text: "@salt and a|b then @pepper{}" is in the class *)
+Example C02_core_doc_accepts_bar_after_word :
+  core_doc U C02_sample_cfg
+    [64;115;97;108;116;32;97;110;100;32;97;124;98;32;116;104;101;110;32;64;112;101;112;112;101;114;123;125] = true.
+Proof. vm_compute. reflexivity. Qed.
+
 (* ---- the full statement, and its proof --------------------------------------------------------- *)
 (* For every source of the class core_doc and any two of the 192 sets: the same event stream, and
    the same analysis result under the extension records read off the two sets, as soon as the
@@ -395,6 +421,297 @@ Example C02_converse_sample :
   | _ => false
   end = true.
 Proof. vm_compute. reflexivity. Qed.
+
+(* ---- the converse half for the other six families, for ANY source -------------------------- *)
+(* Every diagnostic of any event stream has a code that is possible under the extension word:
+   duplicate-modifier / recipe-on-cookware / modifiers-on-timer need COMPONENT_MODIFIERS, the six
+   intermediate-reference codes need INTERMEDIATE_PREPARATIONS, the three alias codes need
+   COMPONENT_ALIAS, timer-without-quantity needs TIMER_REQUIRES_TIME (code_possible) *)
+Theorem C02_diag_codes_document :
+  forall Ucls c s evs, events Ucls c s = Done evs -> Forall (Pcodes c) evs.
+Proof. exact diag_codes_document. Qed.
+Print Assumptions C02_diag_codes_document.
+
+(* COMPONENT_MODIFIERS off: no ingredient or cookware event carries a modifier bit - in particular
+   not the reference bit of `&` - and no ingredient carries intermediate-reference data: the
+   characters `@ & ? + -` after a marker stay in the name *)
+Theorem C02_modifiers_off_document :
+  forall Ucls c s evs, has c X_COMPONENT_MODIFIERS = false -> events Ucls c s = Done evs -> Forall Pmods evs.
+Proof. exact modifiers_off_document. Qed.
+Print Assumptions C02_modifiers_off_document.
+
+Theorem C02_modifier_diagnostics_off_document :
+  forall Ucls c s evs, has c X_COMPONENT_MODIFIERS = false -> events Ucls c s = Done evs ->
+    Forall (no_codes (codes_modifiers ++ codes_intermediate)) evs.
+Proof. exact modifier_codes_off. Qed.
+Print Assumptions C02_modifier_diagnostics_off_document.
+
+(* INTERMEDIATE_PREPARATIONS off (COMPONENT_MODIFIERS possibly on): `&(..)` never yields
+   intermediate-reference data, and none of its diagnostics is reported *)
+Theorem C02_intermediate_off_document :
+  forall Ucls c s evs, has c X_INTERMEDIATE_PREPARATIONS = false -> events Ucls c s = Done evs -> Forall Pinter evs.
+Proof. exact intermediate_off_document. Qed.
+Print Assumptions C02_intermediate_off_document.
+
+Theorem C02_intermediate_diagnostics_off_document :
+  forall Ucls c s evs, has c X_INTERMEDIATE_PREPARATIONS = false -> events Ucls c s = Done evs ->
+    Forall (no_codes codes_intermediate) evs.
+Proof. exact intermediate_codes_off. Qed.
+Print Assumptions C02_intermediate_diagnostics_off_document.
+
+Theorem C02_alias_diagnostics_off_document :
+  forall Ucls c s evs, has c X_COMPONENT_ALIAS = false -> events Ucls c s = Done evs -> Forall (no_codes codes_alias) evs.
+Proof. exact alias_codes_off. Qed.
+Print Assumptions C02_alias_diagnostics_off_document.
+
+(* TIMER_REQUIRES_TIME off: the check of step.rs 460-467 never fires - `~name` is a timer
+   without quantity and without the error *)
+Theorem C02_timer_time_off_document :
+  forall Ucls c s evs, has c X_TIMER_REQUIRES_TIME = false -> events Ucls c s = Done evs ->
+    Forall (no_codes codes_timer_time) evs.
+Proof. exact timer_time_off_document. Qed.
+Print Assumptions C02_timer_time_off_document.
+
+(* ADVANCED_UNITS off: every unit of every ingredient or timer quantity of the stream was asked
+   for right after a `%` token of the document (doc_tokens: the tokens the block loop runs over);
+   a blank never separates value and unit.  At the level of one quantity, for ANY tokens between
+   the braces: a unit needs a `%` among them, and without one there is no unit (`1 kg`) *)
+Theorem C02_advanced_off_document :
+  forall Ucls c s evs, has c X_ADVANCED_UNITS = false -> events Ucls c s = Done evs ->
+    Forall (Padv (doc_tokens Ucls c s)) evs.
+Proof. exact advanced_off_document. Qed.
+Print Assumptions C02_advanced_off_document.
+
+Theorem C02_advanced_off_quantity :
+  forall c qts s q usep s', has c X_ADVANCED_UNITS = false ->
+    parse_quantity c qts s = Done ((q, usep), s') -> unit_after_percent qts q.
+Proof. exact advanced_off_quantity. Qed.
+Print Assumptions C02_advanced_off_quantity.
+
+Theorem C02_advanced_off_no_percent :
+  forall c qts s q usep s', has c X_ADVANCED_UNITS = false ->
+    parse_quantity c qts s = Done ((q, usep), s') ->
+    existsb (fun t => tk_eqb (kind t) KPercent) qts = false -> q_unit q = None.
+Proof. exact advanced_off_no_percent. Qed.
+Print Assumptions C02_advanced_off_no_percent.
+
+(* MODES off, parser side: after a front matter no `>>` line is a metadata event (a bracketed key
+   is text of a step like any other `>>` line); without front matter every `>>` line is kept
+   whatever its key (C02_modes_off) *)
+Theorem C02_modes_off_document :
+  forall Ucls c s evs, has c X_MODES = false -> parse_frontmatter c s <> None -> events Ucls c s = Done evs ->
+    Forall Pnometa evs.
+Proof. exact modes_off_document. Qed.
+Print Assumptions C02_modes_off_document.
+
+(* on "@&(2)a{1 kg}(n) ~rest" under the empty set: one ingredient named "&(2)a" without modifier
+   bits or reference data, value "1 kg" as text, no unit; a timer named "rest" without quantity; no
+   diagnostic at all *)
+Example C02_converse_sample_off :
+  match events U (with_ext C02_sample_cfg 0)
+          [64;38;40;50;41;97;123;49;32;107;103;125;40;110;41;32;126;114;101;115;116] with
+  | Done [EvStart true; EvIngredient i; EvText _; EvTimer t; EvEnd true] =>
+      (i_mods i =? 0) && match i_inter i with None => true | Some _ => false end
+      && str_eqb (text_str (i_name i)) [38;40;50;41;97]
+      && match i_qty i with
+         | Some q => match qv (q_val q), q_unit q with VText v, None => str_eqb v [49;32;107;103] | _, _ => false end
+         | None => false
+         end
+      && match t_name t, t_qty t with Some n, None => str_eqb (text_str n) [114;101;115;116] | _, _ => false end
+  | _ => false
+  end = true.
+Proof. vm_compute. reflexivity. Qed.
+
+(* and with every extension on the same text reads as a reference with intermediate data, a
+   number with a unit, and a timer error *)
+Example C02_converse_sample_on :
+  match events U (with_ext C02_sample_cfg X_ALL)
+          [64;38;40;50;41;97;123;49;32;107;103;125;40;110;41;32;126;114;101;115;116] with
+  | Done [EvStart true; EvIngredient i; EvText _; EvDiag d; EvTimer t; EvEnd true] =>
+      (i_mods i =? M_REF) && match i_inter i with Some _ => true | None => false end
+      && match i_qty i with
+         | Some q => match qv (q_val q), q_unit q with VNum _, Some _ => true | _, _ => false end
+         | None => false
+         end
+      && (d_code d =? D_TIMER_NO_QTY)
+  | _ => false
+  end = true.
+Proof. vm_compute. reflexivity. Qed.
+
+(* ---- the analysis pass with a flag off, on ANY event stream -------------------------------- *)
+Module AnalysisOff.
+Import CL.Model.Analysis CL.Proofs.C02OffAnalysis.
+
+(* INLINE_QUANTITIES off: the inline-quantity finder (an oracle of the converter) is never
+   consulted - the result is the same for any two finders - ... *)
+Theorem C02_inline_off_analysis :
+  forall ci_key yaml_ok input cfg fq fq' unit_class e evs,
+    ext_has e X_INLINE_QUANTITIES = false ->
+    analyse ci_key yaml_ok fq unit_class input (aext_of e) cfg evs
+    = analyse ci_key yaml_ok fq' unit_class input (aext_of e) cfg evs.
+Proof. intros. apply analyse_inline_off. assumption. Qed.
+Print Assumptions C02_inline_off_analysis.
+
+(* ... and the recipe records no inline quantity and no step holds an Inline item: numbers in
+   step text stay text *)
+Theorem C02_inline_off_no_inline :
+  forall ci_key yaml_ok input cfg fq unit_class e evs r valid,
+    ext_has e X_INLINE_QUANTITIES = false ->
+    analyse ci_key yaml_ok fq unit_class input (aext_of e) cfg evs = Done (Some r, valid) ->
+    r_inline r = O /\ forallb section_plain (r_sections r) = true.
+Proof. intros ci_key yaml_ok input cfg fq unit_class e evs r valid H. apply analyse_no_inline. exact H. Qed.
+Print Assumptions C02_inline_off_no_inline.
+
+(* ADVANCED_UNITS off: the converter's unit classification is never consulted - no unit check
+   (event_consumer.rs 639, 988) can fire, whatever the timers and references of the stream *)
+Theorem C02_advanced_off_analysis :
+  forall ci_key yaml_ok input cfg fq uc uc' e evs,
+    ext_has e X_ADVANCED_UNITS = false ->
+    analyse ci_key yaml_ok fq uc input (aext_of e) cfg evs
+    = analyse ci_key yaml_ok fq uc' input (aext_of e) cfg evs.
+Proof. intros. apply analyse_advanced_off. assumption. Qed.
+Print Assumptions C02_advanced_off_analysis.
+
+(* MODES off: metadata events - bracketed keys included - do nothing to the recipe structure,
+   validity and output: the stream without them gives the same result; and the define and
+   duplicate modes never leave the state they start in *)
+Theorem C02_modes_off_analysis :
+  forall ci_key yaml_ok input cfg fq uc e evs,
+    ext_has e X_MODES = false ->
+    analyse ci_key yaml_ok fq uc input (aext_of e) cfg evs
+    = analyse ci_key yaml_ok fq uc input (aext_of e) cfg (filter not_metadata evs).
+Proof. intros. apply analyse_modes_off. assumption. Qed.
+Print Assumptions C02_modes_off_analysis.
+
+Theorem C02_modes_constant_analysis :
+  forall ci_key yaml_ok input cfg fq uc e evs s s',
+    ext_has e X_MODES = false ->
+    run ci_key yaml_ok fq uc input (aext_of e) cfg s evs = Done s' ->
+    a_define s' = a_define s /\ a_duplicate s' = a_duplicate s.
+Proof. intros ci_key yaml_ok input cfg fq uc e evs s s' H. apply run_modes_constant. exact H. Qed.
+Print Assumptions C02_modes_constant_analysis.
+(* MODES off and no `&` modifier on any ingredient or cookware event (what the parser guarantees
+   without COMPONENT_MODIFIERS): every ingredient and cookware item of the recipe is a definition
+   that nothing refers to *)
+Theorem C02_no_references_analysis :
+  forall ci_key yaml_ok input cfg fq uc e evs r valid,
+    ext_has e X_MODES = false -> forallb plain_comp_event evs = true ->
+    analyse ci_key yaml_ok fq uc input (aext_of e) cfg evs = Done (Some r, valid) ->
+    forallb unref (r_ingredients r) = true /\ forallb unref (r_cookware r) = true.
+Proof. intros ci_key yaml_ok input cfg fq uc e evs r valid H. apply analyse_no_references. exact H. Qed.
+Print Assumptions C02_no_references_analysis.
+End AnalysisOff.
+
+(* end to end, for ANY source: without COMPONENT_MODIFIERS and MODES no reference relation arises -
+   `&name` is an item of its own, named "&name" *)
+Theorem C02_no_references_pipeline :
+  forall Ucls c s evs ci_key yaml_ok find_iq unit_class input acfg r valid,
+    has c X_COMPONENT_MODIFIERS = false -> has c X_MODES = false ->
+    events Ucls c s = Done evs ->
+    CL.Model.Analysis.analyse ci_key yaml_ok find_iq unit_class input (aext_of (p_ext c)) acfg (abstract_events evs)
+      = Done (Some r, valid) ->
+    forallb CL.Proofs.C02OffAnalysis.unref (CL.Model.Analysis.r_ingredients r) = true
+    /\ forallb CL.Proofs.C02OffAnalysis.unref (CL.Model.Analysis.r_cookware r) = true.
+Proof. exact no_references_pipeline. Qed.
+Print Assumptions C02_no_references_pipeline.
+
+(* ---- "with no errors" ------------------------------------------------------------------------- *)
+(* for every core_doc source the streams of any two extension words are equal, so a source that is
+   free of error diagnostics under one set is free of them under every set *)
+Definition no_error (ev : pevent) : bool := match ev with EvDiag d => negb (d_err d) | _ => true end.
+Theorem C02_no_errors_transport :
+  forall Ucls cfg e1 e2 s evs, core_doc Ucls cfg s = true ->
+    events Ucls (with_ext cfg e1) s = Done evs -> forallb no_error evs = true ->
+    exists evs2, events Ucls (with_ext cfg e2) s = Done evs2 /\ forallb no_error evs2 = true.
+Proof.
+  intros Ucls cfg e1 e2 s evs Hc He Hn. exists evs. split; [|exact Hn].
+  rewrite <- (events_invariant Ucls cfg e1 e2 s Hc). exact He.
+Qed.
+Print Assumptions C02_no_errors_transport.
+
+Module NoErrors.
+Import CL.Model.Printer CL.Proofs.C02NoErrors.
+
+(* PARTIAL (no front matter; the specification d is a certificate given with the text): the class
+   core_spelling U cfg text d is decidable - it lexes the text, cuts it with the block splitter and
+   compares every block token by token with the printed block of d, and checks that d is well
+   formed (Model/Printer.v: block_ok) under each of the 192 sets.  For such a text, under each of
+   the 192 sets, the parser does not panic, reports NO diagnostic (neither error nor warning) and
+   yields the events d denotes *)
+Theorem C02_core_no_errors_partial :
+  forall Ucls cfg text d e, In e ext_sets -> core_spelling Ucls cfg text d = true ->
+    exists evs, events Ucls (with_ext cfg e) text = Done evs /\ forallb no_diag evs = true
+                /\ map ev_proj evs = concat (map denote_block d).
+Proof. exact core_no_diagnostics. Qed.
+Print Assumptions C02_core_no_errors_partial.
+
+(* the full statement: the class is core_doc itself plus a decidable well-formedness predicate on
+   the source alone (front matter included); not proved *)
+Definition C02_core_no_errors_statement (wf_source : (N -> ucls) -> pcfg -> str -> bool) : Prop :=
+  forall Ucls cfg s e, In e ext_sets -> CL.Proofs.C02Wide.core_doc Ucls cfg s = true -> wf_source Ucls cfg s = true ->
+    exists evs, events Ucls (with_ext cfg e) s = Done evs /\ forallb no_error evs = true.
+
+(* a non-trivial member of the class:
+     >> k: v
+     = A
+     Add @flour{ = 1 1/2 [-c-] % g }(sifted) to
+     a @salt, @eggs{2} in #pot{ } ~{5%min} half-way @black pepper{a pinch}
+
+     > rest
+     --x
+     B                                                                                      *)
+Definition sp : ptok := (KWs, [32]).
+Definition wd (s : str) : ptok := (KWord, s).
+Definition nl : ptok := (KNewline, [10]).
+Definition tape1 : qtape :=
+  {| q_lead := [sp]; q_after_lock := [sp];
+     q_ta := {| n_gap := [sp]; n_bs := []; n_as := [] |}; q_tb := {| n_gap := []; n_bs := []; n_as := [] |};
+     q_bd := [sp]; q_ad := [sp]; q_trail := [sp; (KBlockComment, [91; 45; 99; 45; 93]); sp];
+     q_after_pct := [sp]; q_end := [sp]; q_adv := None |}.
+Definition tape0 : qtape :=
+  {| q_lead := []; q_after_lock := [];
+     q_ta := {| n_gap := [sp]; n_bs := []; n_as := [] |}; q_tb := {| n_gap := []; n_bs := []; n_as := [] |};
+     q_bd := []; q_ad := []; q_trail := []; q_after_pct := []; q_end := []; q_adv := None |}.
+Definition q_mixed : qspec := {| qs_val := QNum (SMixed [49] [49] [50]); qs_lock := true; qs_unit := Some [(KWord, [103])] |}.
+Definition q_pinch : qspec := {| qs_val := QText [(KWord, [97]); sp; (KWord, [112; 105; 110; 99; 104])]; qs_lock := false; qs_unit := None |}.
+Definition q_two : qspec := {| qs_val := QNum (SInt [50]); qs_lock := false; qs_unit := None |}.
+Definition q_range_text : qspec := {| qs_val := QText [(KInt, [50]); (KMinus, [45]); (KInt, [51])]; qs_lock := false; qs_unit := None |}.
+Definition c_flour : cspec := {| cs_kind := CIgr; cs_mods := []; cs_name := [wd [102;108;111;117;114]]; cs_alias := None;
+                                cs_body := BQty q_mixed tape1; cs_note := Some [wd [115;105;102;116;101;100]] |}.
+Definition c_pepper : cspec := {| cs_kind := CIgr; cs_mods := []; cs_name := [wd [98;108;97;99;107]; sp; wd [112;101;112;112;101;114]];
+                                 cs_alias := None; cs_body := BQty q_pinch tape0; cs_note := None |}.
+Definition c_eggs : cspec := {| cs_kind := CIgr; cs_mods := []; cs_name := [wd [101;103;103;115]]; cs_alias := None;
+                               cs_body := BQty q_two tape0; cs_note := None |}.
+Definition c_salt : cspec := {| cs_kind := CIgr; cs_mods := []; cs_name := [wd [115; 97; 108; 116]]; cs_alias := None;
+                               cs_body := BWord; cs_note := None |}.
+Definition c_pot : cspec := {| cs_kind := CCw; cs_mods := []; cs_name := [wd [112; 111; 116]]; cs_alias := None;
+                              cs_body := BEmpty [sp]; cs_note := None |}.
+Definition c_tm : cspec := {| cs_kind := CTm; cs_mods := []; cs_name := []; cs_alias := None;
+                             cs_body := BQty {| qs_val := QNum (SInt [53]); qs_lock := false; qs_unit := Some [wd [109; 105; 110]] |} tape0;
+                             cs_note := None |}.
+Definition step1 : list item :=
+  [IText [wd [65; 100; 100]; sp]; IComp c_flour; IText [sp; wd [116; 111]; nl; wd [97]; sp];
+   IComp c_salt; IText [(KPunct, [44]); sp]; IComp c_eggs; IText [sp; wd [105;110]; sp]; IComp c_pot; IText [sp]; IComp c_tm;
+   IText [sp; wd [104;97;108;102]; (KMinus, [45]); wd [119;97;121]; sp]; IComp c_pepper].
+Definition tline1 : tline := {| tl_marker := true; tl_ws := [sp]; tl_toks := [wd [114;101;115;116]] |}.
+Definition doc : list block :=
+  [BkMeta [sp; wd [107]] [sp; wd [118]]; BkSection 0 [sp; wd [65]] 0 []; BkStep step1; BkText [tline1]; BkStep [IText [wd [66]]]].
+Definition doc_text : str :=
+  unlex (print_block (BkMeta [sp; wd [107]] [sp; wd [118]]) ++ nl :: print_block (BkSection 0 [sp; wd [65]] 0 []) ++ nl ::
+         print_block (BkStep step1) ++ nl :: nl :: print_block (BkText [tline1]) ++ nl ::
+         (KLineComment, [45; 45; 120]) :: nl :: print_block (BkStep [IText [wd [66]]])).
+Example C02_core_spelling_satisfiable :
+  core_spelling U C02_sample_cfg doc_text doc = true /\ length doc_text = 138%nat.
+Proof. split; vm_compute; reflexivity. Qed.
+
+(* the class rejects a specification that one of the sets reads differently: `@a{2-3}` as a text
+   value is well formed under the empty set but not under RANGE_VALUES *)
+Example C02_core_spec_rejects :
+  let b := BkStep [IComp {| cs_kind := CIgr; cs_mods := []; cs_name := [wd [97]]; cs_alias := None;
+                            cs_body := BQty q_range_text tape0; cs_note := None |}] in
+  Printer.block_ok (with_ext C02_sample_cfg 0) b = true /\ core_spec C02_sample_cfg [b] = false.
+Proof. split; vm_compute; reflexivity. Qed.
+End NoErrors.
 
 (* the first formulation (syntactic class on the whole token list), kept for reference; not proved *)
 Definition C02_full_statement_tokens : Prop :=
